@@ -32,7 +32,7 @@ SPEC = dict(
         quick="layout: all 258 assignments of 1..3 keys to 6 shapes (0-d..4-d, size-1 dims), every key order, every presence pattern for "
               "Stack (<= 3 members), m in 1..3; diff: every program with 1 op (all 13 ops) on the 83 assignments up to renaming of the "
               "leaves (non-decreasing shape tuples; operand orders and input listing orders are enumerated anyway), programs with 2 ops "
-              "(ops sin, mul, sum, idx0, detach) on 4 scenario assignments (three with 3-d/4-d keys), all <= 2 output tensors in both orders; chain: programs with 2 "
+              "(ops sin, mul, sum, idx0, detach) on 4 scenario assignments (three with 3-d/4-d keys), all <= 2 output tensors in both orders, plus 1-op programs with a leaf as one of two outputs; chain: programs with 2 "
               "ops whose first result is a cut set; stackgrad: 2-op 2-output programs (ops mul, sum) on 2 scenarios (one 4-d)",
         thorough="1-op programs on all 258 ordered assignments; diff/chain with all 13 ops at depth 2 on the 7 scenarios; chain additionally with 3 ops (ops sin, mul, sum, unbind); "
                  "stackgrad with ops mul, sum, sin on 3 scenarios",
@@ -41,7 +41,7 @@ SPEC = dict(
         "ops limited to the grammar of mc/programs.py (its NumPy dual-number interpreter is shape-generic; forward values are cross-checked "
         "with torch on every program, disagreement = harness error)",
         "cotangents: the one-hot basis and one generic combination; linearity of the reference makes the basis exhaustive",
-        "float64 (tolerance 1e-10 x scale) and float32 (2e-5 x scale) with scale = max(1, r * max|C| * max|J|); layout transforms are compared bit-exactly",
+        "float64 (tolerance 1e-12 x scale) and float32 (2e-5 x scale) with scale = max(1, r * max|C| * max|J|); layout transforms are compared bit-exactly",
         "graphs are retained between executions (retain_graph=True) except for the last Jac of every program",
     ],
     exhaustive=True,
@@ -61,7 +61,7 @@ QUICK_SCENARIOS = (SCENARIOS[0],) + SCENARIOS[3:6]
 OPS_Q2 = ("sin", "mul", "sum", "idx0", "detach")
 OPS_STACK = ("mul", "sum", "sin")
 OPS_CH3 = ("sin", "mul", "sum", "unbind")
-TOL64, TOL32 = 1e-10, 2e-5
+TOL64, TOL32 = 1e-12, 2e-5
 
 
 def assignments():
@@ -149,6 +149,10 @@ def gen_cases(tier, seed):
             cases.append(dict(kind="progs", items=items[lo:lo + 12], seed=seed))
     ops2 = OPS_Q2 if tier == "quick" else P.UNARY + P.BINARY
     items = []
+    # an output that is itself an input leaf (identity block in the Jacobian), 1-op programs on the scenarios
+    for sc in (QUICK_SCENARIOS if tier == "quick" else SCENARIOS):
+        for prog, outs in P.enum_program_outputs(sc, (1, 1, 1), 1, max_outputs=2, both_orders=True, leaf_outputs=True):
+            items.append(("diff", prog, outs))
     for sc in (QUICK_SCENARIOS if tier == "quick" else SCENARIOS):
         for prog, outs in P.enum_program_outputs(sc, (1, 1, 1), 2, max_outputs=2, ops=ops2, both_orders=True):
             items.append(("diff", prog, outs))
@@ -356,6 +360,17 @@ def run_layout(acc, shapes, seed):
                         acc.v("aggregate:constant-value", f"{what}: got {xs.tolist()} expected {ref.tolist()}")
                 acc.nontrivial += nt
         acc.outcomes.add(digest(["aggregate", shapes, order]))
+    # observation only (key count 0 is outside the enumerated 1..3): Grad with no outputs returns torch.empty(...), i.e.
+    # uninitialised memory, where the VJP of no cotangent is 0. Not asserted because the content is arbitrary (flaky by nature).
+    from torchjd.autojac._transform import Grad
+
+    junk = [torch.full_like(k, 7.0) for k in keys]
+    del junk
+    res = _call(acc, "Grad no outputs", lambda: Grad([], [k.clone().requires_grad_() for k in keys])(Gradients({})))
+    if res is not None:
+        acc.count("grad_no_outputs_probes")
+        if any(not bool((v == 0).all()) for v in res.values()):
+            acc.count("grad_no_outputs_returned_nonzero_garbage")
     # no key at all: the aggregator is not called, the result is empty
     rec = RecordingAggregator(Mean())
     res = _call(acc, "Aggregate no keys", lambda: Aggregate(rec, [])(Jacobians({})))
